@@ -178,6 +178,8 @@ def canary(ctx, trace):
     def m_noloc(e): e['out']['hdr']['loc'] = dict(has=False, v=[])
     def m_clen(e): e['out']['hdr']['clen']['v'] = [57, 57]
     def m_map(e): e['out']['status'] = 400
+    def m_nwh(e): e['out']['nwh'] = 2
+    def m_long(e): e['out']['nbody'] += 60
     def m_crange(e): e['out']['crp']['end'] += 1
     def m_nojson(e): e['out']['err'] = dict(json=False, code='')
     def m_code(e): e['out']['err']['code'] = 'NAME_UNKNOWN'
@@ -189,8 +191,10 @@ def canary(ctx, trace):
         ('status', lambda e: w(e, 'ManifestGet') and e['out']['status'] == 200, m_status),
         ('reader-not-closed', lambda e: w(e, 'ManifestGet') and e['out']['status'] == 200, m_unclosed),
         ('location-missing', lambda e: w(e, 'StartUpload') and e['out']['status'] == 202, m_noloc),
-        ('content-length', lambda e: w(e, 'BlobGet') and e['out']['status'] in (200, 206), m_clen),
-        ('content-range-inconsistent', lambda e: e['out']['status'] == 206, m_crange),
+        ('content-length', lambda e: w(e, 'BlobGet') and e['out']['status'] in (200, 206) and not any(o['rfailed'] for o in e['out']['objs']), m_clen),
+        ('content-range-inconsistent', lambda e: e['out']['status'] == 206 and not any(o['rfailed'] for o in e['out']['objs']), m_crange),
+        ('two-status-lines', lambda e: e['out']['status'] == 200 and e['out']['nwh'] == 1, m_nwh),
+        ('error-document-after-aborted-body', lambda e: any(o['rfailed'] for o in e['out']['objs']), m_long),
         ('404-as-400', lambda e: 'want' in e and e['want']['mode'] == 'reject' and e['out']['status'] == 404, m_map),
         ('error-body-not-json', lambda e: e['out']['status'] == 404, m_nojson),
         ('code-disagrees-with-status', lambda e: e['out']['status'] == 403, m_code),
